@@ -212,13 +212,18 @@ PROPS["C03"] = dict(
               "Line/Indent; non-trivial = well-formed input; output checked by encoding/json and by the Lean reference",
 )
 PROPS["C05"] = dict(
-    disabled=True, na_reason="model and correspondence tie built; theorems are being proved (statements in lean/RefmtProofs/Props/C05.lean)",
     level="proof",
     lean_module="RefmtProofs.Props.C05",
-    theorems=[],
+    theorems=["Refmt.C05.refine", "Refmt.C05.number_dfa", "Refmt.C05.string_dfa", "Refmt.C05.unquote_total",
+              "Refmt.C05.reject_literal", "Refmt.C05.reject_nonstring_key", "Refmt.C05.reject_unterminated_array"],
     streams=[dict(name="jsondec", gen="jsondec", rule="jsondec")],
     title="JSON decoder agrees with RFC 8259",
-    claim="(work in progress)",
+    claim="Theorems (every byte string): the decoder machine model yields exactly the tokens of the value the RFC 8259 reference reader "
+          "(Spec.Json.parse, with the single ,] / ,} leniency) reads, done on the last token, leaving exactly its rest (number look-ahead in "
+          "push-back), and errors whenever the reference rejects; the number and string scanner DFAs accept exactly the RFC grammars "
+          "(written as independent structural recognisers); unquoting never fails on an accepted body; listed rejections as corollaries. "
+          "Tie: exhaustive-small, grammar-generated, truncated and mutated texts through the real decoder vs machine model vs reference "
+          "reader vs Go's encoding/json.",
     rule_text="texts for the JSON decoder: all strings of <= 3 (4) chars over the 45-symbol JSON alphabet and <= 4 (5) over a 23-symbol one, "
               "literal corruptions, numbers at every range boundary with every follower, all \\uXXXX (stride in quick), surrogate pairs, "
               "raw bytes, grammar-generated documents with random whitespace and trailing commas, trailing data, every proper prefix, "
@@ -266,4 +271,34 @@ PROPS["C16"] = dict(
     rule_text="wfault: documents x both encoders (JSON compact and pretty) x every Write-call index up to the number the document needs "
               "x {error, short count, both} x {fail-once, fail-stop}, run step by step and through the real TokenPump; rfault: documents "
               "of both formats x a distinguished reader error at every byte offset x {fail-once, fail-stop}; non-trivial = the fault fires",
+)
+
+def rule_obj(body, I, M):
+    i = I.get("I", "")
+    if i == "def" or body.startswith("T ") or body.startswith("A "):
+        return dict(corr_ok=True, prop_ok=True, nontrivial=False, bucket="def", why="")
+    if _bad_impl(i):
+        return dict(corr_ok=False, prop_ok=False, nontrivial=True, bucket="crash", why="implementation " + i)
+    corr_ok = (i == M.get("M")) and I.get("V") == M.get("V")
+    o = I.get("O", "ok")
+    prop_ok = (o == "ok")
+    why = ("oracle: " + o) if not prop_ok else ("" if corr_ok else "implementation and model differ")
+    s = M.get("S")
+    if prop_ok and s is not None and s != i:
+        prop_ok, why = False, "implementation %s differs from specification %s" % (i, s)
+    return dict(corr_ok=corr_ok, prop_ok=prop_ok, nontrivial=("," in i), bucket=i.rsplit("/", 1)[-1][-4:], why=why)
+RULES["obj"] = rule_obj
+
+PROPS["C07"] = dict(
+    disabled=True, na_reason="model and correspondence tie built; theorems are being proved",
+    level="proof",
+    lean_module="RefmtProofs.Props.C07",
+    theorems=[],
+    streams=[dict(name="marshal", gen="marshal", rule="obj")],
+    title="the marshaller emits one finite, well-formed token stream",
+    claim="(work in progress)",
+    rule_text="values of ~95 zoo types (compiled named types and reflect-composed ones: scalars of every kind, byte slices/arrays, slices, "
+              "arrays, maps incl. struct keys, pointers, untyped slots, structs with omitempty/ignored/embedded/embedded-pointer fields, "
+              "unions, transforms, unsupported kinds) x 5 atlas configurations, type-directed random values with nil at every position; "
+              "real obj.Marshaller stepped under recover with a step cap; non-trivial = more than one token",
 )
